@@ -231,3 +231,96 @@ def r4_4(ctx):
     mut_calls = sorted({c for c, bb in callers if c and not c.endswith("add_board_to_draw_table")})
     ok = set(mut_calls) <= {MM}
     ctx.ob("play_out_position:only-make_move-mutates", ok and MM in mut_calls, b.file, "functions receiving the board: %s" % sorted({c for c, _ in callers}))
+
+
+def r4_2(ctx):
+    """En-passant target: both producers record the square the double-stepping pawn passed over
+    (start + dir == end - dir), under the same trigger (a pawn moving two rows)."""
+    from wa.linear import linear
+    from wa.cond import enum_value_on_trace
+    from . import successor
+    f = ctx.facts
+    colours = f.enum_variant_by_discr("board::PieceColor")
+    # --- text applier
+    b = f.body(MM)
+    ex = Exprs(b)
+    bp = _board_param(b)
+    pts = []
+    for bb, t in sorted(b.iter_calls()):
+        if (callee_of(t) or "").endswith("<impl str>::parse") and (t.get("generic_args") or [""])[0] == "board::Point":
+            pts.append(ex.call_expr(t, b.term_loc(bb)))
+    ev = board_events(b, ex, bp)
+    n = 0
+    for loc, e in ev.items():
+        if e[0] == "write" and e[1] == "pawn_double_move" and e[2][0] == "agg" and e[2][2] == "Some":
+            # the target is a variable assigned per colour arm
+            tgt = strip_refs(e[2][3][0])
+            defs = []
+            if tgt[0] == "var":
+                for dloc, k in tgt[2]:
+                    if k == "whole":
+                        defs.append((dloc, ex.rvalue(b.stmts(dloc[0])[dloc[1]]["rv"], dloc)))
+            else:
+                defs.append((loc, tgt))
+            for dloc, te in defs:
+                te = strip_refs(te)
+                if not (te[0] == "agg" and te[1] == "board::Point"):
+                    continue
+                # colour of this arm
+                col_e = None
+                for s in b.normal:
+                    if s in b.reachable and b.term(s)["k"] == "switch":
+                        d = ex.switch_discr(s)
+                        if d[0] == "discr" and strip_refs(d[1])[0] == "field" and strip_refs(d[1])[2] == "color":
+                            col_e = strip_refs(d[1])
+                poss = enum_value_on_trace(b, ex, dloc[0], col_e, colours) if col_e else set()
+                lr, lc = linear(te[3][0]), linear(te[3][1])
+                start0 = ("field", strip_refs(pts[0]), "0") if pts else None
+                start1 = ("field", strip_refs(pts[0]), "1") if pts else None
+                n += 1
+                def is_start(form, comp):
+                    if form is None or len(form[0]) != 1 or list(form[0].values()) != [1]:
+                        return False
+                    t_ = strip_refs(next(iter(form[0])))
+                    return t_[0] == "field" and t_[2] == comp and bool(pts) and pts[0] in set(subexprs(t_))
+                ok = len(poss) == 1 and is_start(lr, "0") and lr[1] == chess.PAWN[next(iter(poss))]["dir"] and is_start(lc, "1") and lc[1] == 0
+                ctx.ob("make_move:ep-target:%s" % sorted(poss), ok, b.where(dloc),
+                       "text applier records (start.row %+d, start.col) for a %s double step; the passed-over square is start.row %+d" % (
+                           lr[1] if lr else 0, sorted(poss), chess.PAWN[next(iter(poss))]["dir"] if len(poss) == 1 else 0))
+            # trigger
+            trig = []
+            for d, vals, excl, s, tg in dominating_facts(b, ex, loc[0]):
+                truth = (vals is None and excl == [0]) or vals == [1]
+                d0 = strip_refs(d)
+                if truth and d0[0] == "bin" and d0[1] == "Eq" and d0[3] == ("const", 2) and any(x[0] == "call" and x[1].endswith("::abs") for x in subexprs(d0[2])):
+                    trig.append("two-rows")
+                if truth and d0[0] == "bin" and d0[1] == "Eq" and ("agg", "board::PieceKind", "Pawn", ()) in (strip_refs(d0[2]), strip_refs(d0[3])):
+                    trig.append("pawn")
+            ctx.ob("make_move:ep-trigger", sorted(trig) == ["pawn", "two-rows"], b.where(loc), "target recorded exactly for a pawn moving two rows: %s" % sorted(trig))
+    # --- generator
+    an = successor.get(ctx)
+    for site, loc in sorted(an.ep_sets, key=lambda x: x[1]):
+        gb, gex = site.b, site.ex
+        st = gb.stmts(loc[0])[loc[1]]
+        e = gex.rvalue(st["rv"], loc)
+        if not (e[0] == "agg" and e[2] == "Some"):
+            continue
+        tgt = strip_refs(e[3][0])
+        mp = [(l2, ev2) for l2, evs in site.events.items() for ev2 in evs if ev2[0] == "call" and ev2[1] == successor.MOVE_PIECE and ev2[2] == 0]
+        to = strip_refs(gex.call_args(mp[0][0][0])[2]) if mp else None
+        pp = [i for i in range(1, gb.arg_count + 1) if gb.local_ty(i) == "board::Piece"]
+        defs = []
+        if tgt[0] == "var":
+            for dloc, k in tgt[2]:
+                if k == "whole":
+                    defs.append((dloc, gex.rvalue(gb.stmts(dloc[0])[dloc[1]]["rv"], dloc)))
+        for dloc, te in defs:
+            te = strip_refs(te)
+            poss = enum_value_on_trace(gb, gex, dloc[0], ("field", ("arg", pp[0]), "color"), colours) if pp else set()
+            lr, lc = linear(te[3][0]), linear(te[3][1])
+            n += 1
+            ok = len(poss) == 1 and lr is not None and lr[0] == {("field", to, "0"): 1} and lr[1] == -chess.PAWN[next(iter(poss))]["dir"] and lc is not None and lc[0] == {("field", to, "1"): 1} and lc[1] == 0
+            ctx.ob("generate_moves_for_piece:ep-target:%s" % sorted(poss), ok, gb.where(dloc),
+                   "generator records (to.row %+d, to.col) for a %s double step; the passed-over square is to.row %+d" % (
+                       lr[1] if lr else 0, sorted(poss), -chess.PAWN[next(iter(poss))]["dir"] if len(poss) == 1 else 0))
+    ctx.floor("ep target definitions (both producers)", n, 4)
